@@ -148,6 +148,20 @@ CLAIMED["C16"] = {
                           "implied by the work item's assumptions cached across runs",
 }
 
+CLAIMED["C17"] = {
+    "text": "bounded symbolic checking of ONE process_raw() step of the real Decode from an arbitrary state satisfying a "
+            "representation invariant (so the verdicts extend to histories of any length): no exception and invariant "
+            "preserved for every type code x state shape x ADS-B version with all other bits and all times symbolic; an "
+            "aircraft heard <= 59 s ago stays, one silent > 61 s goes; a Comm-B message changes nothing unless its address "
+            "is already listed (any hex case); a stored position that is updated is within 0.001 deg (one CPR step where "
+            "that is coarser) of the true position for every 600-kt motion box, through the reference path (< 180 s) and "
+            "the even/odd pair path (< 10 s), per NL band. Bounds: <= 2 aircraft, CPR fields seeded in the totality "
+            "items, surface targets poleward of 88.5 deg and > 45 NM from the receiver outside.",
+    "design_ref": "DESIGN.md section 5 C17", "note": NOTE,
+    "technique": T_CPR + "; one inductive step from an arbitrary invariant-satisfying state (symbolic table contents, "
+                         "concrete dictionary keys)",
+}
+
 NOT_APPLICABLE = {
     "C20": "transcendental float numerics (numpy **, exp, sqrt, arccos on doubles): no SMT theory reaches the stated "
            "quantities; z3 nlsat answers unknown on the tas<->cas inverse identity; see DESIGN.md section 5 C20",
